@@ -58,6 +58,7 @@ def check(run):
              'current / lagged - 1 guarded by both operands being non-null and a non-zero base')
     for cfg in configs(run):
         F = run.facts(cfg)
+        if cfg == 'base': __import__('common').pins(run, F, 'agg_delegates')
         # helpers this property stands on (rule sets owned by other properties, see common.deps)
         from common import deps as _deps
         _deps(run, F, 'isnone', 'casts')
